@@ -264,16 +264,51 @@ func c12Invoice(a []V) []V {
 	if ext := c12Ext(a[8]); len(ext) > 0 {
 		comboJ["ext"] = ext
 	}
+	mkLine := func(combo map[string]any) any {
+		return map[string]any{
+			"quantity": "1",
+			"item":     map[string]any{"name": "Item", "price": "100.00"},
+			"taxes":    []any{combo},
+		}
+	}
+	// decoy rows (optional tenth argument: a list of extension lists): further lines, before and after the
+	// observed one, and a discount and a charge, with the same category and rate key in other contexts. What
+	// the observed line receives must not depend on them.
+	lines := []any{}
+	var discounts, charges []any
+	observedAt := 0
+	if len(a) > 9 {
+		for i, dv := range a[9].L {
+			dc := map[string]any{"cat": a[4].Str(), "rate": a[5].Str(), "percent": c12SentinelPct.String(), "surcharge": c12SentinelSur.String()}
+			if ext := c12Ext(dv); len(ext) > 0 {
+				dc["ext"] = ext
+			}
+			lines = append(lines, mkLine(dc))
+			if i == 0 {
+				discounts = append(discounts, map[string]any{"amount": "1.00", "reason": "decoy", "taxes": []any{dc}})
+				charges = append(charges, map[string]any{"amount": "1.00", "reason": "decoy", "taxes": []any{dc}})
+			}
+		}
+		observedAt = len(lines)
+	}
+	lines = append(lines, mkLine(comboJ))
+	if len(a) > 9 && len(a[9].L) > 0 {
+		dc := map[string]any{"cat": a[4].Str(), "rate": a[5].Str(), "percent": c12SentinelPct.String(), "surcharge": c12SentinelSur.String()}
+		if ext := c12Ext(a[9].L[0]); len(ext) > 0 {
+			dc["ext"] = ext
+		}
+		lines = append(lines, mkLine(dc))
+	}
 	doc := map[string]any{
 		"$regime":  string(r.Country),
 		"currency": string(r.Currency),
 		"supplier": map[string]any{"name": "Supplier", "tax_id": map[string]any{"country": string(r.Country)}},
 		"customer": map[string]any{"name": "Customer"},
-		"lines": []any{map[string]any{
-			"quantity": "1",
-			"item":     map[string]any{"name": "Item", "price": "100.00"},
-			"taxes":    []any{comboJ},
-		}},
+		"lines":    lines,
+	}
+	if len(discounts) > 0 {
+		doc["discounts"] = discounts
+		doc["charges"] = charges
 	}
 	if tags := c12Tags(a[7]); len(tags) > 0 {
 		doc["$tags"] = tags
@@ -322,10 +357,10 @@ func c12Invoice(a []V) []V {
 			} `json:"taxes"`
 		} `json:"lines"`
 	}
-	if err := json.Unmarshal(outText, &back); err != nil || len(back.Lines) != 1 || len(back.Lines[0].Taxes) != 1 {
+	if err := json.Unmarshal(outText, &back); err != nil || len(back.Lines) != len(lines) || len(back.Lines[observedAt].Taxes) != 1 {
 		return []V{VErr("readback")}
 	}
-	tx := back.Lines[0].Taxes[0]
+	tx := back.Lines[observedAt].Taxes[0]
 	pv, sv := VL(), VL()
 	if tx.Percent != nil {
 		x, ok := c12PctText(*tx.Percent)
